@@ -13,3 +13,111 @@ pub fn reset_process_globals() {
         tracker.verif_reset_usage();
     }
 }
+
+// ---------------------------------------------------------------------------
+// H5: schedule points and fault switches. Disarmed (the default) they do nothing.
+
+use std::collections::HashMap;
+use std::sync::atomic::{AtomicBool, AtomicU64, Ordering};
+use std::sync::Mutex;
+
+#[derive(Debug, Clone, Copy)]
+pub enum ChaosAction {
+    /// sleep this many milliseconds every time the point is reached
+    DelayMs(u64),
+    /// seeded: yield 0..=3 times or sleep 0..max_us microseconds, drawn from the global seeded generator
+    Seeded { max_us: u64 },
+}
+
+static CHAOS_ARMED: AtomicBool = AtomicBool::new(false);
+static CHAOS_RNG: AtomicU64 = AtomicU64::new(0x9E3779B97F4A7C15);
+static CHAOS_HITS: AtomicU64 = AtomicU64::new(0);
+static CHAOS: Mutex<Option<HashMap<String, ChaosAction>>> = Mutex::new(None);
+static FAULTS: Mutex<Option<HashMap<String, Vec<u64>>>> = Mutex::new(None);
+static FAULT_CALLS: Mutex<Option<HashMap<String, u64>>> = Mutex::new(None);
+
+fn next_rand() -> u64 {
+    let mut x = CHAOS_RNG.load(Ordering::Relaxed);
+    x ^= x << 13;
+    x ^= x >> 7;
+    x ^= x << 17;
+    CHAOS_RNG.store(x, Ordering::Relaxed);
+    x
+}
+
+/// `name` "*" arms every point.
+pub fn arm_chaos(name: &str, action: ChaosAction, seed: u64) {
+    let mut guard = CHAOS.lock().unwrap();
+    guard
+        .get_or_insert_with(HashMap::new)
+        .insert(name.to_string(), action);
+    CHAOS_RNG.store(seed | 1, Ordering::Relaxed);
+    CHAOS_ARMED.store(true, Ordering::SeqCst);
+}
+
+pub fn disarm_all() {
+    CHAOS_ARMED.store(false, Ordering::SeqCst);
+    *CHAOS.lock().unwrap() = None;
+    *FAULTS.lock().unwrap() = None;
+    *FAULT_CALLS.lock().unwrap() = None;
+    CHAOS_HITS.store(0, Ordering::SeqCst);
+}
+
+pub fn chaos_hits() -> u64 {
+    CHAOS_HITS.load(Ordering::SeqCst)
+}
+
+pub async fn chaos_point(name: &str) {
+    if !CHAOS_ARMED.load(Ordering::Relaxed) {
+        return;
+    }
+    let action = {
+        let guard = CHAOS.lock().unwrap();
+        guard
+            .as_ref()
+            .and_then(|m| m.get(name).or_else(|| m.get("*")).copied())
+    };
+    let Some(action) = action else { return };
+    CHAOS_HITS.fetch_add(1, Ordering::SeqCst);
+    match action {
+        ChaosAction::DelayMs(ms) => tokio::time::sleep(std::time::Duration::from_millis(ms)).await,
+        ChaosAction::Seeded { max_us } => {
+            let r = next_rand();
+            match r % 4 {
+                0 => {}
+                1 | 2 => {
+                    for _ in 0..(1 + (r >> 8) % 3) {
+                        tokio::task::yield_now().await;
+                    }
+                }
+                _ => {
+                    let us = (r >> 16) % max_us.max(1);
+                    tokio::time::sleep(std::time::Duration::from_micros(us)).await;
+                }
+            }
+        }
+    }
+}
+
+/// Makes the listed (1-based) calls of `inject_fault(name)` return true.
+pub fn arm_fault(name: &str, failing_calls: Vec<u64>) {
+    FAULTS
+        .lock()
+        .unwrap()
+        .get_or_insert_with(HashMap::new)
+        .insert(name.to_string(), failing_calls);
+}
+
+pub fn inject_fault(name: &str) -> bool {
+    let faults = FAULTS.lock().unwrap();
+    let Some(list) = faults.as_ref().and_then(|m| m.get(name)) else {
+        return false;
+    };
+    let mut calls = FAULT_CALLS.lock().unwrap();
+    let n = calls
+        .get_or_insert_with(HashMap::new)
+        .entry(name.to_string())
+        .or_insert(0);
+    *n += 1;
+    list.contains(n)
+}
